@@ -150,8 +150,24 @@ def atom(B, F, sb, label, restrict=None):
         elif op == "Le":
             op, tv = "Gt", (not tv if tv is not None else None)
         return ("%s(%s, %s)" % (op, a, b), tv)
-    # plain operand
+    # plain operand: a bool that is, on this path, the result of one call reads like a test of that call
+    if is_bool and e[1].get("k") in ("copy", "move") and restrict is not None:
+        org = B.origins(e[1], restrict=restrict)
+        if len(org) == 1:
+            o = next(iter(org))
+            if o[0] == "call" and not o[3] and str(B.locals[B.blocks[o[2]]["term"]["dest"]["l"]].get("ty")) == "bool":
+                tb = B.blocks[o[2]]["term"]
+                return _call_atom(B, o[1], tb["args"], truth(), restrict)
     return ("val(%s)" % D(e[1]), truth() if is_bool else label)
+
+
+def feasible(atoms):
+    """no atom contradicts a constant it tests (`val(const:0)` taken as true)"""
+    for d, v in atoms:
+        c = _const_truth(d)
+        if c is not None and isinstance(v, bool) and v != c:
+            return False
+    return True
 
 
 def path_atoms(B, F, path):
@@ -422,12 +438,16 @@ def decision_rows(F, fid, depth=2, _memo=None):
                     feasible = False
                     break
                 continue
-            m_ = re.fullmatch(r"discr\(agg:[A-Za-z0-9_:]*::(\w+)\)", d_)
-            if m_ and isinstance(v_, str):
-                if m_.group(1) not in v_.split("|"):
+            m_ = re.fullmatch(r"discr\(agg:([A-Za-z0-9_:]*)::(\w+)\)", d_)
+            if m_ and isinstance(v_, (str, int)):
+                outs = str(v_).split("|")
+                names_ = [x["name"] for x in (F.adts.get(m_.group(1)) or {}).get("variants", [])]
+                same = m_.group(2) in outs or (m_.group(2) in names_ and str(names_.index(m_.group(2))) in outs)
+                if not same and (names_ or not all(x.isdigit() for x in outs)):
                     feasible = False
                     break
-                continue
+                if same:
+                    continue
             if d_.startswith(("discr(param:", "val(param:")) and "call" not in d_:
                 if d_ in seen_:
                     if seen_[d_] != v_:
